@@ -8,4 +8,5 @@ from . import conn, families, mc, kamodel
 def run(v):
     kamodel.check(v)
     mc.run_for(v, 'C15')
-    conn.check(v, 'C15', families.FAMILIES['C15'])
+    # (reconnect family: 'a connected client sends a KEEPALIVE every period' on the connection made by the reconnect)
+    conn.check(v, 'C15', families.FAMILIES['C15'], also=('C17.keepalive_restarted',))
